@@ -70,8 +70,12 @@ class Unwind(BaseException):
 class Seam:
     def __init__(self, root, mode="record", fault_at=None, kill_at=None,
                  sched=None, detect_opaque=False, write_buffer=None,
-                 kill_at_mut=None, write_chunks=None, fault_kinds=None):
+                 kill_at_mut=None, write_chunks=None, fault_kinds=None,
+                 list_order=None):
         self.root = os.path.abspath(root)
+        # the order in which a directory's entries are handed out is the file
+        # system's choice: None = as it comes, "asc" / "desc" = by name
+        self.list_order = list_order
         self.mode = mode
         self.fault_at = fault_at
         self.kill_at = kill_at
@@ -419,6 +423,9 @@ def _scandir(path="."):
         with _orig["scandir"](path) as it:
             return list(it)
     entries = seam.op("list", p, thunk, False)
+    if seam.list_order:
+        entries = sorted(entries, key=lambda e: e.name,
+                         reverse=seam.list_order == "desc")
     return _ScandirResult(entries)
 
 
@@ -472,7 +479,17 @@ def _install():
     os.stat = _wrap1("stat", "stat", False)
     os.lstat = _wrap1("lstat", "stat", False)
     os.access = _wrap1("access", "stat", False)
-    os.listdir = _wrap1("listdir", "list", False)
+    _ld = _wrap1("listdir", "list", False)
+
+    def _listdir(path=".", *a, **kw):
+        res = _ld(path, *a, **kw)
+        seam = ACTIVE
+        if seam is not None and seam.list_order and not isinstance(path, int) \
+                and seam.inside(_abs(path)):
+            res = sorted(res, reverse=seam.list_order == "desc")
+        return res
+
+    os.listdir = _listdir
     os.scandir = _scandir
     time.sleep = _sleep
     _saved_rm = shutil._use_fd_functions
